@@ -18,7 +18,7 @@ EXTENDS Integers, Sequences, TLC
 CONSTANTS W, MaxT, FixClose
 
 W3 == <<2, 3, 5>>
-W4 == <<2, 3, 5, 8>>
+W4 == <<2, 4, 8>>   \* initial 2 s, exponent 2, cap 8 s
 
 VARIABLES now, reach, nextSink, downOn, rpc, level, wakeAt, inflight, closed,
           lastEnd, prevGap, viol, subscribed
